@@ -107,6 +107,7 @@ type Project struct {
 	CropCols     string `json:"-"`                 // yaml text of cropout_conf.yml ("" = minimal)
 	Files        map[string]string `json:"-"`      // extra/override files relative to the project dir
 	SoilCSVOrder int               `json:"soil_csv_order,omitempty"` // column order of the CSV soil file (see SoilCSV)
+	ZeroCapacityCells bool         `json:"zero_capacity_cells,omitempty"` // capacity values that are not given are written as 0 instead of an empty cell
 	FCode        string            `json:"fcode,omitempty"`          // weather station code = file name stem ("" = W)
 	Heights      *[3]float64       `json:"heights,omitempty"`        // third header line of the weather files: station altitude (m), wind measurement height (m), base CO2 (0 = "-"); layouts 0 and 1 only
 	CO2ByYear    map[int]float64   `json:"co2_by_year,omitempty"`    // CO2 concentration per calendar year: header slot of each year file (layout 1, needs Heights), CO2 column (layout 2)
@@ -269,6 +270,13 @@ func fnum(v int) string {
 	return fmt.Sprintf("%02d", v)
 }
 
+func (p *Project) capCell(v int) string {
+	if v == 0 && p.ZeroCapacityCells {
+		return "0"
+	}
+	return fnum(v)
+}
+
 // SoilCSV renders the soil as CSV rows. SoilCSVOrder: 0 = the usual column order, 1 = columns reversed, 2 = rotated by 7
 // (the reader finds its columns by name).
 func (p *Project) SoilCSV() string {
@@ -290,7 +298,7 @@ func (p *Project) SoilCSV() string {
 			root, nh, gw = fmt.Sprintf("%02d", p.Soil.RootDepth), fmt.Sprintf("%02d", len(p.Soil.Hor)), fmt.Sprintf("%02d", p.Soil.GW)
 		}
 		r := []string{p.SoilID, fmt.Sprintf("%g", h.Corg), h.Tex, fmt.Sprintf("%02d", h.Lower), fmt.Sprintf("%d", h.BD), fmt.Sprintf("%02d", h.Stone), fmt.Sprintf("%g", h.CN), "00",
-			root, nh, fnum(h.FC), fnum(h.WP), fnum(h.PS), fnum(h.Sand), fnum(h.Silt), fnum(h.Clay), dd, df, gw}
+			root, nh, p.capCell(h.FC), p.capCell(h.WP), p.capCell(h.PS), fnum(h.Sand), fnum(h.Silt), fnum(h.Clay), dd, df, gw}
 		if hasBulk {
 			if h.BulkDensity > 0 {
 				r = append(r, fmt.Sprintf("%g", h.BulkDensity))
